@@ -204,11 +204,15 @@ Record tthread := mkT {
   ttl : nat                  (* loadTimeLimit() result *)
 }.
 
+(* goroutine identities *)
+Inductive thr := ThCtl | ThSearch (n : nat) | ThTimer (k : nat) | ThClock.
+
 (** ** The state (record and its field setters are generated text; no logic in this block)
    cfgTT, cfgBook, cfgBookOk : config.Settings.Search.UseTT / UseBook, and whether book loading succeeds (constants)
    calls / done              : remaining calls of the controller (head = call in progress) / ghost: completed calls, newest first
    cpcv, cidx                : controller pc / ghost: number of completed calls = index of the current call
    runFree, initFree, outFree: s.isRunning, s.initSemaphore (semaphore.Weighted, size 1) and u.sendLock are free
+   outHolder                 : ghost: the goroutine that locked u.sendLock (None when free)
    panicked                  : a Release/Unlock of a free semaphore/mutex or a nil dereference happened (never, see Inv)
    toks, stopPtr             : heap of stop tokens (index = token id; None = false, Some r = true, first set by r) /
                                the pointer field s.stopFlag.  Token 0 is created by NewSearch; the token created by
@@ -249,6 +253,7 @@ Record state := mkState {
   book : bool;
   hist : nat;
   outFree : bool;
+  outHolder : option thr;
   outBuf : list line;
   outErr : bool;
   outLines : list line;
@@ -263,71 +268,73 @@ Record state := mkState {
 }.
 
 Definition set_cfgTT (v : bool) (s : state) : state :=
-  {| cfgTT := v; cfgBook := cfgBook s; cfgBookOk := cfgBookOk s; calls := calls s; done := done s; cpcv := cpcv s; cidx := cidx s; runFree := runFree s; initFree := initFree s; panicked := panicked s; toks := toks s; stopPtr := stopPtr s; timeLimit := timeLimit s; extraTime := extraTime s; limitsVar := limitsVar s; curPos := curPos s; hasResult := hasResult s; lastResult := lastResult s; tt := tt s; book := book s; hist := hist s; outFree := outFree s; outBuf := outBuf s; outErr := outErr s; outLines := outLines s; clock := clock s; srch := srch s; senders := senders s; timers := timers s; ntimers := ntimers s; starts := starts s; results := results s; trace := trace s |}.
+  {| cfgTT := v; cfgBook := cfgBook s; cfgBookOk := cfgBookOk s; calls := calls s; done := done s; cpcv := cpcv s; cidx := cidx s; runFree := runFree s; initFree := initFree s; panicked := panicked s; toks := toks s; stopPtr := stopPtr s; timeLimit := timeLimit s; extraTime := extraTime s; limitsVar := limitsVar s; curPos := curPos s; hasResult := hasResult s; lastResult := lastResult s; tt := tt s; book := book s; hist := hist s; outFree := outFree s; outHolder := outHolder s; outBuf := outBuf s; outErr := outErr s; outLines := outLines s; clock := clock s; srch := srch s; senders := senders s; timers := timers s; ntimers := ntimers s; starts := starts s; results := results s; trace := trace s |}.
 Definition set_cfgBook (v : bool) (s : state) : state :=
-  {| cfgTT := cfgTT s; cfgBook := v; cfgBookOk := cfgBookOk s; calls := calls s; done := done s; cpcv := cpcv s; cidx := cidx s; runFree := runFree s; initFree := initFree s; panicked := panicked s; toks := toks s; stopPtr := stopPtr s; timeLimit := timeLimit s; extraTime := extraTime s; limitsVar := limitsVar s; curPos := curPos s; hasResult := hasResult s; lastResult := lastResult s; tt := tt s; book := book s; hist := hist s; outFree := outFree s; outBuf := outBuf s; outErr := outErr s; outLines := outLines s; clock := clock s; srch := srch s; senders := senders s; timers := timers s; ntimers := ntimers s; starts := starts s; results := results s; trace := trace s |}.
+  {| cfgTT := cfgTT s; cfgBook := v; cfgBookOk := cfgBookOk s; calls := calls s; done := done s; cpcv := cpcv s; cidx := cidx s; runFree := runFree s; initFree := initFree s; panicked := panicked s; toks := toks s; stopPtr := stopPtr s; timeLimit := timeLimit s; extraTime := extraTime s; limitsVar := limitsVar s; curPos := curPos s; hasResult := hasResult s; lastResult := lastResult s; tt := tt s; book := book s; hist := hist s; outFree := outFree s; outHolder := outHolder s; outBuf := outBuf s; outErr := outErr s; outLines := outLines s; clock := clock s; srch := srch s; senders := senders s; timers := timers s; ntimers := ntimers s; starts := starts s; results := results s; trace := trace s |}.
 Definition set_cfgBookOk (v : bool) (s : state) : state :=
-  {| cfgTT := cfgTT s; cfgBook := cfgBook s; cfgBookOk := v; calls := calls s; done := done s; cpcv := cpcv s; cidx := cidx s; runFree := runFree s; initFree := initFree s; panicked := panicked s; toks := toks s; stopPtr := stopPtr s; timeLimit := timeLimit s; extraTime := extraTime s; limitsVar := limitsVar s; curPos := curPos s; hasResult := hasResult s; lastResult := lastResult s; tt := tt s; book := book s; hist := hist s; outFree := outFree s; outBuf := outBuf s; outErr := outErr s; outLines := outLines s; clock := clock s; srch := srch s; senders := senders s; timers := timers s; ntimers := ntimers s; starts := starts s; results := results s; trace := trace s |}.
+  {| cfgTT := cfgTT s; cfgBook := cfgBook s; cfgBookOk := v; calls := calls s; done := done s; cpcv := cpcv s; cidx := cidx s; runFree := runFree s; initFree := initFree s; panicked := panicked s; toks := toks s; stopPtr := stopPtr s; timeLimit := timeLimit s; extraTime := extraTime s; limitsVar := limitsVar s; curPos := curPos s; hasResult := hasResult s; lastResult := lastResult s; tt := tt s; book := book s; hist := hist s; outFree := outFree s; outHolder := outHolder s; outBuf := outBuf s; outErr := outErr s; outLines := outLines s; clock := clock s; srch := srch s; senders := senders s; timers := timers s; ntimers := ntimers s; starts := starts s; results := results s; trace := trace s |}.
 Definition set_calls (v : list call) (s : state) : state :=
-  {| cfgTT := cfgTT s; cfgBook := cfgBook s; cfgBookOk := cfgBookOk s; calls := v; done := done s; cpcv := cpcv s; cidx := cidx s; runFree := runFree s; initFree := initFree s; panicked := panicked s; toks := toks s; stopPtr := stopPtr s; timeLimit := timeLimit s; extraTime := extraTime s; limitsVar := limitsVar s; curPos := curPos s; hasResult := hasResult s; lastResult := lastResult s; tt := tt s; book := book s; hist := hist s; outFree := outFree s; outBuf := outBuf s; outErr := outErr s; outLines := outLines s; clock := clock s; srch := srch s; senders := senders s; timers := timers s; ntimers := ntimers s; starts := starts s; results := results s; trace := trace s |}.
+  {| cfgTT := cfgTT s; cfgBook := cfgBook s; cfgBookOk := cfgBookOk s; calls := v; done := done s; cpcv := cpcv s; cidx := cidx s; runFree := runFree s; initFree := initFree s; panicked := panicked s; toks := toks s; stopPtr := stopPtr s; timeLimit := timeLimit s; extraTime := extraTime s; limitsVar := limitsVar s; curPos := curPos s; hasResult := hasResult s; lastResult := lastResult s; tt := tt s; book := book s; hist := hist s; outFree := outFree s; outHolder := outHolder s; outBuf := outBuf s; outErr := outErr s; outLines := outLines s; clock := clock s; srch := srch s; senders := senders s; timers := timers s; ntimers := ntimers s; starts := starts s; results := results s; trace := trace s |}.
 Definition set_done (v : list call) (s : state) : state :=
-  {| cfgTT := cfgTT s; cfgBook := cfgBook s; cfgBookOk := cfgBookOk s; calls := calls s; done := v; cpcv := cpcv s; cidx := cidx s; runFree := runFree s; initFree := initFree s; panicked := panicked s; toks := toks s; stopPtr := stopPtr s; timeLimit := timeLimit s; extraTime := extraTime s; limitsVar := limitsVar s; curPos := curPos s; hasResult := hasResult s; lastResult := lastResult s; tt := tt s; book := book s; hist := hist s; outFree := outFree s; outBuf := outBuf s; outErr := outErr s; outLines := outLines s; clock := clock s; srch := srch s; senders := senders s; timers := timers s; ntimers := ntimers s; starts := starts s; results := results s; trace := trace s |}.
+  {| cfgTT := cfgTT s; cfgBook := cfgBook s; cfgBookOk := cfgBookOk s; calls := calls s; done := v; cpcv := cpcv s; cidx := cidx s; runFree := runFree s; initFree := initFree s; panicked := panicked s; toks := toks s; stopPtr := stopPtr s; timeLimit := timeLimit s; extraTime := extraTime s; limitsVar := limitsVar s; curPos := curPos s; hasResult := hasResult s; lastResult := lastResult s; tt := tt s; book := book s; hist := hist s; outFree := outFree s; outHolder := outHolder s; outBuf := outBuf s; outErr := outErr s; outLines := outLines s; clock := clock s; srch := srch s; senders := senders s; timers := timers s; ntimers := ntimers s; starts := starts s; results := results s; trace := trace s |}.
 Definition set_cpcv (v : cpc) (s : state) : state :=
-  {| cfgTT := cfgTT s; cfgBook := cfgBook s; cfgBookOk := cfgBookOk s; calls := calls s; done := done s; cpcv := v; cidx := cidx s; runFree := runFree s; initFree := initFree s; panicked := panicked s; toks := toks s; stopPtr := stopPtr s; timeLimit := timeLimit s; extraTime := extraTime s; limitsVar := limitsVar s; curPos := curPos s; hasResult := hasResult s; lastResult := lastResult s; tt := tt s; book := book s; hist := hist s; outFree := outFree s; outBuf := outBuf s; outErr := outErr s; outLines := outLines s; clock := clock s; srch := srch s; senders := senders s; timers := timers s; ntimers := ntimers s; starts := starts s; results := results s; trace := trace s |}.
+  {| cfgTT := cfgTT s; cfgBook := cfgBook s; cfgBookOk := cfgBookOk s; calls := calls s; done := done s; cpcv := v; cidx := cidx s; runFree := runFree s; initFree := initFree s; panicked := panicked s; toks := toks s; stopPtr := stopPtr s; timeLimit := timeLimit s; extraTime := extraTime s; limitsVar := limitsVar s; curPos := curPos s; hasResult := hasResult s; lastResult := lastResult s; tt := tt s; book := book s; hist := hist s; outFree := outFree s; outHolder := outHolder s; outBuf := outBuf s; outErr := outErr s; outLines := outLines s; clock := clock s; srch := srch s; senders := senders s; timers := timers s; ntimers := ntimers s; starts := starts s; results := results s; trace := trace s |}.
 Definition set_cidx (v : nat) (s : state) : state :=
-  {| cfgTT := cfgTT s; cfgBook := cfgBook s; cfgBookOk := cfgBookOk s; calls := calls s; done := done s; cpcv := cpcv s; cidx := v; runFree := runFree s; initFree := initFree s; panicked := panicked s; toks := toks s; stopPtr := stopPtr s; timeLimit := timeLimit s; extraTime := extraTime s; limitsVar := limitsVar s; curPos := curPos s; hasResult := hasResult s; lastResult := lastResult s; tt := tt s; book := book s; hist := hist s; outFree := outFree s; outBuf := outBuf s; outErr := outErr s; outLines := outLines s; clock := clock s; srch := srch s; senders := senders s; timers := timers s; ntimers := ntimers s; starts := starts s; results := results s; trace := trace s |}.
+  {| cfgTT := cfgTT s; cfgBook := cfgBook s; cfgBookOk := cfgBookOk s; calls := calls s; done := done s; cpcv := cpcv s; cidx := v; runFree := runFree s; initFree := initFree s; panicked := panicked s; toks := toks s; stopPtr := stopPtr s; timeLimit := timeLimit s; extraTime := extraTime s; limitsVar := limitsVar s; curPos := curPos s; hasResult := hasResult s; lastResult := lastResult s; tt := tt s; book := book s; hist := hist s; outFree := outFree s; outHolder := outHolder s; outBuf := outBuf s; outErr := outErr s; outLines := outLines s; clock := clock s; srch := srch s; senders := senders s; timers := timers s; ntimers := ntimers s; starts := starts s; results := results s; trace := trace s |}.
 Definition set_runFree (v : bool) (s : state) : state :=
-  {| cfgTT := cfgTT s; cfgBook := cfgBook s; cfgBookOk := cfgBookOk s; calls := calls s; done := done s; cpcv := cpcv s; cidx := cidx s; runFree := v; initFree := initFree s; panicked := panicked s; toks := toks s; stopPtr := stopPtr s; timeLimit := timeLimit s; extraTime := extraTime s; limitsVar := limitsVar s; curPos := curPos s; hasResult := hasResult s; lastResult := lastResult s; tt := tt s; book := book s; hist := hist s; outFree := outFree s; outBuf := outBuf s; outErr := outErr s; outLines := outLines s; clock := clock s; srch := srch s; senders := senders s; timers := timers s; ntimers := ntimers s; starts := starts s; results := results s; trace := trace s |}.
+  {| cfgTT := cfgTT s; cfgBook := cfgBook s; cfgBookOk := cfgBookOk s; calls := calls s; done := done s; cpcv := cpcv s; cidx := cidx s; runFree := v; initFree := initFree s; panicked := panicked s; toks := toks s; stopPtr := stopPtr s; timeLimit := timeLimit s; extraTime := extraTime s; limitsVar := limitsVar s; curPos := curPos s; hasResult := hasResult s; lastResult := lastResult s; tt := tt s; book := book s; hist := hist s; outFree := outFree s; outHolder := outHolder s; outBuf := outBuf s; outErr := outErr s; outLines := outLines s; clock := clock s; srch := srch s; senders := senders s; timers := timers s; ntimers := ntimers s; starts := starts s; results := results s; trace := trace s |}.
 Definition set_initFree (v : bool) (s : state) : state :=
-  {| cfgTT := cfgTT s; cfgBook := cfgBook s; cfgBookOk := cfgBookOk s; calls := calls s; done := done s; cpcv := cpcv s; cidx := cidx s; runFree := runFree s; initFree := v; panicked := panicked s; toks := toks s; stopPtr := stopPtr s; timeLimit := timeLimit s; extraTime := extraTime s; limitsVar := limitsVar s; curPos := curPos s; hasResult := hasResult s; lastResult := lastResult s; tt := tt s; book := book s; hist := hist s; outFree := outFree s; outBuf := outBuf s; outErr := outErr s; outLines := outLines s; clock := clock s; srch := srch s; senders := senders s; timers := timers s; ntimers := ntimers s; starts := starts s; results := results s; trace := trace s |}.
+  {| cfgTT := cfgTT s; cfgBook := cfgBook s; cfgBookOk := cfgBookOk s; calls := calls s; done := done s; cpcv := cpcv s; cidx := cidx s; runFree := runFree s; initFree := v; panicked := panicked s; toks := toks s; stopPtr := stopPtr s; timeLimit := timeLimit s; extraTime := extraTime s; limitsVar := limitsVar s; curPos := curPos s; hasResult := hasResult s; lastResult := lastResult s; tt := tt s; book := book s; hist := hist s; outFree := outFree s; outHolder := outHolder s; outBuf := outBuf s; outErr := outErr s; outLines := outLines s; clock := clock s; srch := srch s; senders := senders s; timers := timers s; ntimers := ntimers s; starts := starts s; results := results s; trace := trace s |}.
 Definition set_panicked (v : bool) (s : state) : state :=
-  {| cfgTT := cfgTT s; cfgBook := cfgBook s; cfgBookOk := cfgBookOk s; calls := calls s; done := done s; cpcv := cpcv s; cidx := cidx s; runFree := runFree s; initFree := initFree s; panicked := v; toks := toks s; stopPtr := stopPtr s; timeLimit := timeLimit s; extraTime := extraTime s; limitsVar := limitsVar s; curPos := curPos s; hasResult := hasResult s; lastResult := lastResult s; tt := tt s; book := book s; hist := hist s; outFree := outFree s; outBuf := outBuf s; outErr := outErr s; outLines := outLines s; clock := clock s; srch := srch s; senders := senders s; timers := timers s; ntimers := ntimers s; starts := starts s; results := results s; trace := trace s |}.
+  {| cfgTT := cfgTT s; cfgBook := cfgBook s; cfgBookOk := cfgBookOk s; calls := calls s; done := done s; cpcv := cpcv s; cidx := cidx s; runFree := runFree s; initFree := initFree s; panicked := v; toks := toks s; stopPtr := stopPtr s; timeLimit := timeLimit s; extraTime := extraTime s; limitsVar := limitsVar s; curPos := curPos s; hasResult := hasResult s; lastResult := lastResult s; tt := tt s; book := book s; hist := hist s; outFree := outFree s; outHolder := outHolder s; outBuf := outBuf s; outErr := outErr s; outLines := outLines s; clock := clock s; srch := srch s; senders := senders s; timers := timers s; ntimers := ntimers s; starts := starts s; results := results s; trace := trace s |}.
 Definition set_toks (v : list (option reason)) (s : state) : state :=
-  {| cfgTT := cfgTT s; cfgBook := cfgBook s; cfgBookOk := cfgBookOk s; calls := calls s; done := done s; cpcv := cpcv s; cidx := cidx s; runFree := runFree s; initFree := initFree s; panicked := panicked s; toks := v; stopPtr := stopPtr s; timeLimit := timeLimit s; extraTime := extraTime s; limitsVar := limitsVar s; curPos := curPos s; hasResult := hasResult s; lastResult := lastResult s; tt := tt s; book := book s; hist := hist s; outFree := outFree s; outBuf := outBuf s; outErr := outErr s; outLines := outLines s; clock := clock s; srch := srch s; senders := senders s; timers := timers s; ntimers := ntimers s; starts := starts s; results := results s; trace := trace s |}.
+  {| cfgTT := cfgTT s; cfgBook := cfgBook s; cfgBookOk := cfgBookOk s; calls := calls s; done := done s; cpcv := cpcv s; cidx := cidx s; runFree := runFree s; initFree := initFree s; panicked := panicked s; toks := v; stopPtr := stopPtr s; timeLimit := timeLimit s; extraTime := extraTime s; limitsVar := limitsVar s; curPos := curPos s; hasResult := hasResult s; lastResult := lastResult s; tt := tt s; book := book s; hist := hist s; outFree := outFree s; outHolder := outHolder s; outBuf := outBuf s; outErr := outErr s; outLines := outLines s; clock := clock s; srch := srch s; senders := senders s; timers := timers s; ntimers := ntimers s; starts := starts s; results := results s; trace := trace s |}.
 Definition set_stopPtr (v : nat) (s : state) : state :=
-  {| cfgTT := cfgTT s; cfgBook := cfgBook s; cfgBookOk := cfgBookOk s; calls := calls s; done := done s; cpcv := cpcv s; cidx := cidx s; runFree := runFree s; initFree := initFree s; panicked := panicked s; toks := toks s; stopPtr := v; timeLimit := timeLimit s; extraTime := extraTime s; limitsVar := limitsVar s; curPos := curPos s; hasResult := hasResult s; lastResult := lastResult s; tt := tt s; book := book s; hist := hist s; outFree := outFree s; outBuf := outBuf s; outErr := outErr s; outLines := outLines s; clock := clock s; srch := srch s; senders := senders s; timers := timers s; ntimers := ntimers s; starts := starts s; results := results s; trace := trace s |}.
+  {| cfgTT := cfgTT s; cfgBook := cfgBook s; cfgBookOk := cfgBookOk s; calls := calls s; done := done s; cpcv := cpcv s; cidx := cidx s; runFree := runFree s; initFree := initFree s; panicked := panicked s; toks := toks s; stopPtr := v; timeLimit := timeLimit s; extraTime := extraTime s; limitsVar := limitsVar s; curPos := curPos s; hasResult := hasResult s; lastResult := lastResult s; tt := tt s; book := book s; hist := hist s; outFree := outFree s; outHolder := outHolder s; outBuf := outBuf s; outErr := outErr s; outLines := outLines s; clock := clock s; srch := srch s; senders := senders s; timers := timers s; ntimers := ntimers s; starts := starts s; results := results s; trace := trace s |}.
 Definition set_timeLimit (v : nat) (s : state) : state :=
-  {| cfgTT := cfgTT s; cfgBook := cfgBook s; cfgBookOk := cfgBookOk s; calls := calls s; done := done s; cpcv := cpcv s; cidx := cidx s; runFree := runFree s; initFree := initFree s; panicked := panicked s; toks := toks s; stopPtr := stopPtr s; timeLimit := v; extraTime := extraTime s; limitsVar := limitsVar s; curPos := curPos s; hasResult := hasResult s; lastResult := lastResult s; tt := tt s; book := book s; hist := hist s; outFree := outFree s; outBuf := outBuf s; outErr := outErr s; outLines := outLines s; clock := clock s; srch := srch s; senders := senders s; timers := timers s; ntimers := ntimers s; starts := starts s; results := results s; trace := trace s |}.
+  {| cfgTT := cfgTT s; cfgBook := cfgBook s; cfgBookOk := cfgBookOk s; calls := calls s; done := done s; cpcv := cpcv s; cidx := cidx s; runFree := runFree s; initFree := initFree s; panicked := panicked s; toks := toks s; stopPtr := stopPtr s; timeLimit := v; extraTime := extraTime s; limitsVar := limitsVar s; curPos := curPos s; hasResult := hasResult s; lastResult := lastResult s; tt := tt s; book := book s; hist := hist s; outFree := outFree s; outHolder := outHolder s; outBuf := outBuf s; outErr := outErr s; outLines := outLines s; clock := clock s; srch := srch s; senders := senders s; timers := timers s; ntimers := ntimers s; starts := starts s; results := results s; trace := trace s |}.
 Definition set_extraTime (v : nat) (s : state) : state :=
-  {| cfgTT := cfgTT s; cfgBook := cfgBook s; cfgBookOk := cfgBookOk s; calls := calls s; done := done s; cpcv := cpcv s; cidx := cidx s; runFree := runFree s; initFree := initFree s; panicked := panicked s; toks := toks s; stopPtr := stopPtr s; timeLimit := timeLimit s; extraTime := v; limitsVar := limitsVar s; curPos := curPos s; hasResult := hasResult s; lastResult := lastResult s; tt := tt s; book := book s; hist := hist s; outFree := outFree s; outBuf := outBuf s; outErr := outErr s; outLines := outLines s; clock := clock s; srch := srch s; senders := senders s; timers := timers s; ntimers := ntimers s; starts := starts s; results := results s; trace := trace s |}.
+  {| cfgTT := cfgTT s; cfgBook := cfgBook s; cfgBookOk := cfgBookOk s; calls := calls s; done := done s; cpcv := cpcv s; cidx := cidx s; runFree := runFree s; initFree := initFree s; panicked := panicked s; toks := toks s; stopPtr := stopPtr s; timeLimit := timeLimit s; extraTime := v; limitsVar := limitsVar s; curPos := curPos s; hasResult := hasResult s; lastResult := lastResult s; tt := tt s; book := book s; hist := hist s; outFree := outFree s; outHolder := outHolder s; outBuf := outBuf s; outErr := outErr s; outLines := outLines s; clock := clock s; srch := srch s; senders := senders s; timers := timers s; ntimers := ntimers s; starts := starts s; results := results s; trace := trace s |}.
 Definition set_limitsVar (v : option limits) (s : state) : state :=
-  {| cfgTT := cfgTT s; cfgBook := cfgBook s; cfgBookOk := cfgBookOk s; calls := calls s; done := done s; cpcv := cpcv s; cidx := cidx s; runFree := runFree s; initFree := initFree s; panicked := panicked s; toks := toks s; stopPtr := stopPtr s; timeLimit := timeLimit s; extraTime := extraTime s; limitsVar := v; curPos := curPos s; hasResult := hasResult s; lastResult := lastResult s; tt := tt s; book := book s; hist := hist s; outFree := outFree s; outBuf := outBuf s; outErr := outErr s; outLines := outLines s; clock := clock s; srch := srch s; senders := senders s; timers := timers s; ntimers := ntimers s; starts := starts s; results := results s; trace := trace s |}.
+  {| cfgTT := cfgTT s; cfgBook := cfgBook s; cfgBookOk := cfgBookOk s; calls := calls s; done := done s; cpcv := cpcv s; cidx := cidx s; runFree := runFree s; initFree := initFree s; panicked := panicked s; toks := toks s; stopPtr := stopPtr s; timeLimit := timeLimit s; extraTime := extraTime s; limitsVar := v; curPos := curPos s; hasResult := hasResult s; lastResult := lastResult s; tt := tt s; book := book s; hist := hist s; outFree := outFree s; outHolder := outHolder s; outBuf := outBuf s; outErr := outErr s; outLines := outLines s; clock := clock s; srch := srch s; senders := senders s; timers := timers s; ntimers := ntimers s; starts := starts s; results := results s; trace := trace s |}.
 Definition set_curPos (v : nat) (s : state) : state :=
-  {| cfgTT := cfgTT s; cfgBook := cfgBook s; cfgBookOk := cfgBookOk s; calls := calls s; done := done s; cpcv := cpcv s; cidx := cidx s; runFree := runFree s; initFree := initFree s; panicked := panicked s; toks := toks s; stopPtr := stopPtr s; timeLimit := timeLimit s; extraTime := extraTime s; limitsVar := limitsVar s; curPos := v; hasResult := hasResult s; lastResult := lastResult s; tt := tt s; book := book s; hist := hist s; outFree := outFree s; outBuf := outBuf s; outErr := outErr s; outLines := outLines s; clock := clock s; srch := srch s; senders := senders s; timers := timers s; ntimers := ntimers s; starts := starts s; results := results s; trace := trace s |}.
+  {| cfgTT := cfgTT s; cfgBook := cfgBook s; cfgBookOk := cfgBookOk s; calls := calls s; done := done s; cpcv := cpcv s; cidx := cidx s; runFree := runFree s; initFree := initFree s; panicked := panicked s; toks := toks s; stopPtr := stopPtr s; timeLimit := timeLimit s; extraTime := extraTime s; limitsVar := limitsVar s; curPos := v; hasResult := hasResult s; lastResult := lastResult s; tt := tt s; book := book s; hist := hist s; outFree := outFree s; outHolder := outHolder s; outBuf := outBuf s; outErr := outErr s; outLines := outLines s; clock := clock s; srch := srch s; senders := senders s; timers := timers s; ntimers := ntimers s; starts := starts s; results := results s; trace := trace s |}.
 Definition set_hasResult (v : bool) (s : state) : state :=
-  {| cfgTT := cfgTT s; cfgBook := cfgBook s; cfgBookOk := cfgBookOk s; calls := calls s; done := done s; cpcv := cpcv s; cidx := cidx s; runFree := runFree s; initFree := initFree s; panicked := panicked s; toks := toks s; stopPtr := stopPtr s; timeLimit := timeLimit s; extraTime := extraTime s; limitsVar := limitsVar s; curPos := curPos s; hasResult := v; lastResult := lastResult s; tt := tt s; book := book s; hist := hist s; outFree := outFree s; outBuf := outBuf s; outErr := outErr s; outLines := outLines s; clock := clock s; srch := srch s; senders := senders s; timers := timers s; ntimers := ntimers s; starts := starts s; results := results s; trace := trace s |}.
+  {| cfgTT := cfgTT s; cfgBook := cfgBook s; cfgBookOk := cfgBookOk s; calls := calls s; done := done s; cpcv := cpcv s; cidx := cidx s; runFree := runFree s; initFree := initFree s; panicked := panicked s; toks := toks s; stopPtr := stopPtr s; timeLimit := timeLimit s; extraTime := extraTime s; limitsVar := limitsVar s; curPos := curPos s; hasResult := v; lastResult := lastResult s; tt := tt s; book := book s; hist := hist s; outFree := outFree s; outHolder := outHolder s; outBuf := outBuf s; outErr := outErr s; outLines := outLines s; clock := clock s; srch := srch s; senders := senders s; timers := timers s; ntimers := ntimers s; starts := starts s; results := results s; trace := trace s |}.
 Definition set_lastResult (v : nat) (s : state) : state :=
-  {| cfgTT := cfgTT s; cfgBook := cfgBook s; cfgBookOk := cfgBookOk s; calls := calls s; done := done s; cpcv := cpcv s; cidx := cidx s; runFree := runFree s; initFree := initFree s; panicked := panicked s; toks := toks s; stopPtr := stopPtr s; timeLimit := timeLimit s; extraTime := extraTime s; limitsVar := limitsVar s; curPos := curPos s; hasResult := hasResult s; lastResult := v; tt := tt s; book := book s; hist := hist s; outFree := outFree s; outBuf := outBuf s; outErr := outErr s; outLines := outLines s; clock := clock s; srch := srch s; senders := senders s; timers := timers s; ntimers := ntimers s; starts := starts s; results := results s; trace := trace s |}.
+  {| cfgTT := cfgTT s; cfgBook := cfgBook s; cfgBookOk := cfgBookOk s; calls := calls s; done := done s; cpcv := cpcv s; cidx := cidx s; runFree := runFree s; initFree := initFree s; panicked := panicked s; toks := toks s; stopPtr := stopPtr s; timeLimit := timeLimit s; extraTime := extraTime s; limitsVar := limitsVar s; curPos := curPos s; hasResult := hasResult s; lastResult := v; tt := tt s; book := book s; hist := hist s; outFree := outFree s; outHolder := outHolder s; outBuf := outBuf s; outErr := outErr s; outLines := outLines s; clock := clock s; srch := srch s; senders := senders s; timers := timers s; ntimers := ntimers s; starts := starts s; results := results s; trace := trace s |}.
 Definition set_tt (v : bool) (s : state) : state :=
-  {| cfgTT := cfgTT s; cfgBook := cfgBook s; cfgBookOk := cfgBookOk s; calls := calls s; done := done s; cpcv := cpcv s; cidx := cidx s; runFree := runFree s; initFree := initFree s; panicked := panicked s; toks := toks s; stopPtr := stopPtr s; timeLimit := timeLimit s; extraTime := extraTime s; limitsVar := limitsVar s; curPos := curPos s; hasResult := hasResult s; lastResult := lastResult s; tt := v; book := book s; hist := hist s; outFree := outFree s; outBuf := outBuf s; outErr := outErr s; outLines := outLines s; clock := clock s; srch := srch s; senders := senders s; timers := timers s; ntimers := ntimers s; starts := starts s; results := results s; trace := trace s |}.
+  {| cfgTT := cfgTT s; cfgBook := cfgBook s; cfgBookOk := cfgBookOk s; calls := calls s; done := done s; cpcv := cpcv s; cidx := cidx s; runFree := runFree s; initFree := initFree s; panicked := panicked s; toks := toks s; stopPtr := stopPtr s; timeLimit := timeLimit s; extraTime := extraTime s; limitsVar := limitsVar s; curPos := curPos s; hasResult := hasResult s; lastResult := lastResult s; tt := v; book := book s; hist := hist s; outFree := outFree s; outHolder := outHolder s; outBuf := outBuf s; outErr := outErr s; outLines := outLines s; clock := clock s; srch := srch s; senders := senders s; timers := timers s; ntimers := ntimers s; starts := starts s; results := results s; trace := trace s |}.
 Definition set_book (v : bool) (s : state) : state :=
-  {| cfgTT := cfgTT s; cfgBook := cfgBook s; cfgBookOk := cfgBookOk s; calls := calls s; done := done s; cpcv := cpcv s; cidx := cidx s; runFree := runFree s; initFree := initFree s; panicked := panicked s; toks := toks s; stopPtr := stopPtr s; timeLimit := timeLimit s; extraTime := extraTime s; limitsVar := limitsVar s; curPos := curPos s; hasResult := hasResult s; lastResult := lastResult s; tt := tt s; book := v; hist := hist s; outFree := outFree s; outBuf := outBuf s; outErr := outErr s; outLines := outLines s; clock := clock s; srch := srch s; senders := senders s; timers := timers s; ntimers := ntimers s; starts := starts s; results := results s; trace := trace s |}.
+  {| cfgTT := cfgTT s; cfgBook := cfgBook s; cfgBookOk := cfgBookOk s; calls := calls s; done := done s; cpcv := cpcv s; cidx := cidx s; runFree := runFree s; initFree := initFree s; panicked := panicked s; toks := toks s; stopPtr := stopPtr s; timeLimit := timeLimit s; extraTime := extraTime s; limitsVar := limitsVar s; curPos := curPos s; hasResult := hasResult s; lastResult := lastResult s; tt := tt s; book := v; hist := hist s; outFree := outFree s; outHolder := outHolder s; outBuf := outBuf s; outErr := outErr s; outLines := outLines s; clock := clock s; srch := srch s; senders := senders s; timers := timers s; ntimers := ntimers s; starts := starts s; results := results s; trace := trace s |}.
 Definition set_hist (v : nat) (s : state) : state :=
-  {| cfgTT := cfgTT s; cfgBook := cfgBook s; cfgBookOk := cfgBookOk s; calls := calls s; done := done s; cpcv := cpcv s; cidx := cidx s; runFree := runFree s; initFree := initFree s; panicked := panicked s; toks := toks s; stopPtr := stopPtr s; timeLimit := timeLimit s; extraTime := extraTime s; limitsVar := limitsVar s; curPos := curPos s; hasResult := hasResult s; lastResult := lastResult s; tt := tt s; book := book s; hist := v; outFree := outFree s; outBuf := outBuf s; outErr := outErr s; outLines := outLines s; clock := clock s; srch := srch s; senders := senders s; timers := timers s; ntimers := ntimers s; starts := starts s; results := results s; trace := trace s |}.
+  {| cfgTT := cfgTT s; cfgBook := cfgBook s; cfgBookOk := cfgBookOk s; calls := calls s; done := done s; cpcv := cpcv s; cidx := cidx s; runFree := runFree s; initFree := initFree s; panicked := panicked s; toks := toks s; stopPtr := stopPtr s; timeLimit := timeLimit s; extraTime := extraTime s; limitsVar := limitsVar s; curPos := curPos s; hasResult := hasResult s; lastResult := lastResult s; tt := tt s; book := book s; hist := v; outFree := outFree s; outHolder := outHolder s; outBuf := outBuf s; outErr := outErr s; outLines := outLines s; clock := clock s; srch := srch s; senders := senders s; timers := timers s; ntimers := ntimers s; starts := starts s; results := results s; trace := trace s |}.
 Definition set_outFree (v : bool) (s : state) : state :=
-  {| cfgTT := cfgTT s; cfgBook := cfgBook s; cfgBookOk := cfgBookOk s; calls := calls s; done := done s; cpcv := cpcv s; cidx := cidx s; runFree := runFree s; initFree := initFree s; panicked := panicked s; toks := toks s; stopPtr := stopPtr s; timeLimit := timeLimit s; extraTime := extraTime s; limitsVar := limitsVar s; curPos := curPos s; hasResult := hasResult s; lastResult := lastResult s; tt := tt s; book := book s; hist := hist s; outFree := v; outBuf := outBuf s; outErr := outErr s; outLines := outLines s; clock := clock s; srch := srch s; senders := senders s; timers := timers s; ntimers := ntimers s; starts := starts s; results := results s; trace := trace s |}.
+  {| cfgTT := cfgTT s; cfgBook := cfgBook s; cfgBookOk := cfgBookOk s; calls := calls s; done := done s; cpcv := cpcv s; cidx := cidx s; runFree := runFree s; initFree := initFree s; panicked := panicked s; toks := toks s; stopPtr := stopPtr s; timeLimit := timeLimit s; extraTime := extraTime s; limitsVar := limitsVar s; curPos := curPos s; hasResult := hasResult s; lastResult := lastResult s; tt := tt s; book := book s; hist := hist s; outFree := v; outHolder := outHolder s; outBuf := outBuf s; outErr := outErr s; outLines := outLines s; clock := clock s; srch := srch s; senders := senders s; timers := timers s; ntimers := ntimers s; starts := starts s; results := results s; trace := trace s |}.
+Definition set_outHolder (v : option thr) (s : state) : state :=
+  {| cfgTT := cfgTT s; cfgBook := cfgBook s; cfgBookOk := cfgBookOk s; calls := calls s; done := done s; cpcv := cpcv s; cidx := cidx s; runFree := runFree s; initFree := initFree s; panicked := panicked s; toks := toks s; stopPtr := stopPtr s; timeLimit := timeLimit s; extraTime := extraTime s; limitsVar := limitsVar s; curPos := curPos s; hasResult := hasResult s; lastResult := lastResult s; tt := tt s; book := book s; hist := hist s; outFree := outFree s; outHolder := v; outBuf := outBuf s; outErr := outErr s; outLines := outLines s; clock := clock s; srch := srch s; senders := senders s; timers := timers s; ntimers := ntimers s; starts := starts s; results := results s; trace := trace s |}.
 Definition set_outBuf (v : list line) (s : state) : state :=
-  {| cfgTT := cfgTT s; cfgBook := cfgBook s; cfgBookOk := cfgBookOk s; calls := calls s; done := done s; cpcv := cpcv s; cidx := cidx s; runFree := runFree s; initFree := initFree s; panicked := panicked s; toks := toks s; stopPtr := stopPtr s; timeLimit := timeLimit s; extraTime := extraTime s; limitsVar := limitsVar s; curPos := curPos s; hasResult := hasResult s; lastResult := lastResult s; tt := tt s; book := book s; hist := hist s; outFree := outFree s; outBuf := v; outErr := outErr s; outLines := outLines s; clock := clock s; srch := srch s; senders := senders s; timers := timers s; ntimers := ntimers s; starts := starts s; results := results s; trace := trace s |}.
+  {| cfgTT := cfgTT s; cfgBook := cfgBook s; cfgBookOk := cfgBookOk s; calls := calls s; done := done s; cpcv := cpcv s; cidx := cidx s; runFree := runFree s; initFree := initFree s; panicked := panicked s; toks := toks s; stopPtr := stopPtr s; timeLimit := timeLimit s; extraTime := extraTime s; limitsVar := limitsVar s; curPos := curPos s; hasResult := hasResult s; lastResult := lastResult s; tt := tt s; book := book s; hist := hist s; outFree := outFree s; outHolder := outHolder s; outBuf := v; outErr := outErr s; outLines := outLines s; clock := clock s; srch := srch s; senders := senders s; timers := timers s; ntimers := ntimers s; starts := starts s; results := results s; trace := trace s |}.
 Definition set_outErr (v : bool) (s : state) : state :=
-  {| cfgTT := cfgTT s; cfgBook := cfgBook s; cfgBookOk := cfgBookOk s; calls := calls s; done := done s; cpcv := cpcv s; cidx := cidx s; runFree := runFree s; initFree := initFree s; panicked := panicked s; toks := toks s; stopPtr := stopPtr s; timeLimit := timeLimit s; extraTime := extraTime s; limitsVar := limitsVar s; curPos := curPos s; hasResult := hasResult s; lastResult := lastResult s; tt := tt s; book := book s; hist := hist s; outFree := outFree s; outBuf := outBuf s; outErr := v; outLines := outLines s; clock := clock s; srch := srch s; senders := senders s; timers := timers s; ntimers := ntimers s; starts := starts s; results := results s; trace := trace s |}.
+  {| cfgTT := cfgTT s; cfgBook := cfgBook s; cfgBookOk := cfgBookOk s; calls := calls s; done := done s; cpcv := cpcv s; cidx := cidx s; runFree := runFree s; initFree := initFree s; panicked := panicked s; toks := toks s; stopPtr := stopPtr s; timeLimit := timeLimit s; extraTime := extraTime s; limitsVar := limitsVar s; curPos := curPos s; hasResult := hasResult s; lastResult := lastResult s; tt := tt s; book := book s; hist := hist s; outFree := outFree s; outHolder := outHolder s; outBuf := outBuf s; outErr := v; outLines := outLines s; clock := clock s; srch := srch s; senders := senders s; timers := timers s; ntimers := ntimers s; starts := starts s; results := results s; trace := trace s |}.
 Definition set_outLines (v : list line) (s : state) : state :=
-  {| cfgTT := cfgTT s; cfgBook := cfgBook s; cfgBookOk := cfgBookOk s; calls := calls s; done := done s; cpcv := cpcv s; cidx := cidx s; runFree := runFree s; initFree := initFree s; panicked := panicked s; toks := toks s; stopPtr := stopPtr s; timeLimit := timeLimit s; extraTime := extraTime s; limitsVar := limitsVar s; curPos := curPos s; hasResult := hasResult s; lastResult := lastResult s; tt := tt s; book := book s; hist := hist s; outFree := outFree s; outBuf := outBuf s; outErr := outErr s; outLines := v; clock := clock s; srch := srch s; senders := senders s; timers := timers s; ntimers := ntimers s; starts := starts s; results := results s; trace := trace s |}.
+  {| cfgTT := cfgTT s; cfgBook := cfgBook s; cfgBookOk := cfgBookOk s; calls := calls s; done := done s; cpcv := cpcv s; cidx := cidx s; runFree := runFree s; initFree := initFree s; panicked := panicked s; toks := toks s; stopPtr := stopPtr s; timeLimit := timeLimit s; extraTime := extraTime s; limitsVar := limitsVar s; curPos := curPos s; hasResult := hasResult s; lastResult := lastResult s; tt := tt s; book := book s; hist := hist s; outFree := outFree s; outHolder := outHolder s; outBuf := outBuf s; outErr := outErr s; outLines := v; clock := clock s; srch := srch s; senders := senders s; timers := timers s; ntimers := ntimers s; starts := starts s; results := results s; trace := trace s |}.
 Definition set_clock (v : nat) (s : state) : state :=
-  {| cfgTT := cfgTT s; cfgBook := cfgBook s; cfgBookOk := cfgBookOk s; calls := calls s; done := done s; cpcv := cpcv s; cidx := cidx s; runFree := runFree s; initFree := initFree s; panicked := panicked s; toks := toks s; stopPtr := stopPtr s; timeLimit := timeLimit s; extraTime := extraTime s; limitsVar := limitsVar s; curPos := curPos s; hasResult := hasResult s; lastResult := lastResult s; tt := tt s; book := book s; hist := hist s; outFree := outFree s; outBuf := outBuf s; outErr := outErr s; outLines := outLines s; clock := v; srch := srch s; senders := senders s; timers := timers s; ntimers := ntimers s; starts := starts s; results := results s; trace := trace s |}.
+  {| cfgTT := cfgTT s; cfgBook := cfgBook s; cfgBookOk := cfgBookOk s; calls := calls s; done := done s; cpcv := cpcv s; cidx := cidx s; runFree := runFree s; initFree := initFree s; panicked := panicked s; toks := toks s; stopPtr := stopPtr s; timeLimit := timeLimit s; extraTime := extraTime s; limitsVar := limitsVar s; curPos := curPos s; hasResult := hasResult s; lastResult := lastResult s; tt := tt s; book := book s; hist := hist s; outFree := outFree s; outHolder := outHolder s; outBuf := outBuf s; outErr := outErr s; outLines := outLines s; clock := v; srch := srch s; senders := senders s; timers := timers s; ntimers := ntimers s; starts := starts s; results := results s; trace := trace s |}.
 Definition set_srch (v : list sthread) (s : state) : state :=
-  {| cfgTT := cfgTT s; cfgBook := cfgBook s; cfgBookOk := cfgBookOk s; calls := calls s; done := done s; cpcv := cpcv s; cidx := cidx s; runFree := runFree s; initFree := initFree s; panicked := panicked s; toks := toks s; stopPtr := stopPtr s; timeLimit := timeLimit s; extraTime := extraTime s; limitsVar := limitsVar s; curPos := curPos s; hasResult := hasResult s; lastResult := lastResult s; tt := tt s; book := book s; hist := hist s; outFree := outFree s; outBuf := outBuf s; outErr := outErr s; outLines := outLines s; clock := clock s; srch := v; senders := senders s; timers := timers s; ntimers := ntimers s; starts := starts s; results := results s; trace := trace s |}.
+  {| cfgTT := cfgTT s; cfgBook := cfgBook s; cfgBookOk := cfgBookOk s; calls := calls s; done := done s; cpcv := cpcv s; cidx := cidx s; runFree := runFree s; initFree := initFree s; panicked := panicked s; toks := toks s; stopPtr := stopPtr s; timeLimit := timeLimit s; extraTime := extraTime s; limitsVar := limitsVar s; curPos := curPos s; hasResult := hasResult s; lastResult := lastResult s; tt := tt s; book := book s; hist := hist s; outFree := outFree s; outHolder := outHolder s; outBuf := outBuf s; outErr := outErr s; outLines := outLines s; clock := clock s; srch := v; senders := senders s; timers := timers s; ntimers := ntimers s; starts := starts s; results := results s; trace := trace s |}.
 Definition set_senders (v : list sthread) (s : state) : state :=
-  {| cfgTT := cfgTT s; cfgBook := cfgBook s; cfgBookOk := cfgBookOk s; calls := calls s; done := done s; cpcv := cpcv s; cidx := cidx s; runFree := runFree s; initFree := initFree s; panicked := panicked s; toks := toks s; stopPtr := stopPtr s; timeLimit := timeLimit s; extraTime := extraTime s; limitsVar := limitsVar s; curPos := curPos s; hasResult := hasResult s; lastResult := lastResult s; tt := tt s; book := book s; hist := hist s; outFree := outFree s; outBuf := outBuf s; outErr := outErr s; outLines := outLines s; clock := clock s; srch := srch s; senders := v; timers := timers s; ntimers := ntimers s; starts := starts s; results := results s; trace := trace s |}.
+  {| cfgTT := cfgTT s; cfgBook := cfgBook s; cfgBookOk := cfgBookOk s; calls := calls s; done := done s; cpcv := cpcv s; cidx := cidx s; runFree := runFree s; initFree := initFree s; panicked := panicked s; toks := toks s; stopPtr := stopPtr s; timeLimit := timeLimit s; extraTime := extraTime s; limitsVar := limitsVar s; curPos := curPos s; hasResult := hasResult s; lastResult := lastResult s; tt := tt s; book := book s; hist := hist s; outFree := outFree s; outHolder := outHolder s; outBuf := outBuf s; outErr := outErr s; outLines := outLines s; clock := clock s; srch := srch s; senders := v; timers := timers s; ntimers := ntimers s; starts := starts s; results := results s; trace := trace s |}.
 Definition set_timers (v : list tthread) (s : state) : state :=
-  {| cfgTT := cfgTT s; cfgBook := cfgBook s; cfgBookOk := cfgBookOk s; calls := calls s; done := done s; cpcv := cpcv s; cidx := cidx s; runFree := runFree s; initFree := initFree s; panicked := panicked s; toks := toks s; stopPtr := stopPtr s; timeLimit := timeLimit s; extraTime := extraTime s; limitsVar := limitsVar s; curPos := curPos s; hasResult := hasResult s; lastResult := lastResult s; tt := tt s; book := book s; hist := hist s; outFree := outFree s; outBuf := outBuf s; outErr := outErr s; outLines := outLines s; clock := clock s; srch := srch s; senders := senders s; timers := v; ntimers := ntimers s; starts := starts s; results := results s; trace := trace s |}.
+  {| cfgTT := cfgTT s; cfgBook := cfgBook s; cfgBookOk := cfgBookOk s; calls := calls s; done := done s; cpcv := cpcv s; cidx := cidx s; runFree := runFree s; initFree := initFree s; panicked := panicked s; toks := toks s; stopPtr := stopPtr s; timeLimit := timeLimit s; extraTime := extraTime s; limitsVar := limitsVar s; curPos := curPos s; hasResult := hasResult s; lastResult := lastResult s; tt := tt s; book := book s; hist := hist s; outFree := outFree s; outHolder := outHolder s; outBuf := outBuf s; outErr := outErr s; outLines := outLines s; clock := clock s; srch := srch s; senders := senders s; timers := v; ntimers := ntimers s; starts := starts s; results := results s; trace := trace s |}.
 Definition set_ntimers (v : nat) (s : state) : state :=
-  {| cfgTT := cfgTT s; cfgBook := cfgBook s; cfgBookOk := cfgBookOk s; calls := calls s; done := done s; cpcv := cpcv s; cidx := cidx s; runFree := runFree s; initFree := initFree s; panicked := panicked s; toks := toks s; stopPtr := stopPtr s; timeLimit := timeLimit s; extraTime := extraTime s; limitsVar := limitsVar s; curPos := curPos s; hasResult := hasResult s; lastResult := lastResult s; tt := tt s; book := book s; hist := hist s; outFree := outFree s; outBuf := outBuf s; outErr := outErr s; outLines := outLines s; clock := clock s; srch := srch s; senders := senders s; timers := timers s; ntimers := v; starts := starts s; results := results s; trace := trace s |}.
+  {| cfgTT := cfgTT s; cfgBook := cfgBook s; cfgBookOk := cfgBookOk s; calls := calls s; done := done s; cpcv := cpcv s; cidx := cidx s; runFree := runFree s; initFree := initFree s; panicked := panicked s; toks := toks s; stopPtr := stopPtr s; timeLimit := timeLimit s; extraTime := extraTime s; limitsVar := limitsVar s; curPos := curPos s; hasResult := hasResult s; lastResult := lastResult s; tt := tt s; book := book s; hist := hist s; outFree := outFree s; outHolder := outHolder s; outBuf := outBuf s; outErr := outErr s; outLines := outLines s; clock := clock s; srch := srch s; senders := senders s; timers := timers s; ntimers := v; starts := starts s; results := results s; trace := trace s |}.
 Definition set_starts (v : list (nat * nat * limits)) (s : state) : state :=
-  {| cfgTT := cfgTT s; cfgBook := cfgBook s; cfgBookOk := cfgBookOk s; calls := calls s; done := done s; cpcv := cpcv s; cidx := cidx s; runFree := runFree s; initFree := initFree s; panicked := panicked s; toks := toks s; stopPtr := stopPtr s; timeLimit := timeLimit s; extraTime := extraTime s; limitsVar := limitsVar s; curPos := curPos s; hasResult := hasResult s; lastResult := lastResult s; tt := tt s; book := book s; hist := hist s; outFree := outFree s; outBuf := outBuf s; outErr := outErr s; outLines := outLines s; clock := clock s; srch := srch s; senders := senders s; timers := timers s; ntimers := ntimers s; starts := v; results := results s; trace := trace s |}.
+  {| cfgTT := cfgTT s; cfgBook := cfgBook s; cfgBookOk := cfgBookOk s; calls := calls s; done := done s; cpcv := cpcv s; cidx := cidx s; runFree := runFree s; initFree := initFree s; panicked := panicked s; toks := toks s; stopPtr := stopPtr s; timeLimit := timeLimit s; extraTime := extraTime s; limitsVar := limitsVar s; curPos := curPos s; hasResult := hasResult s; lastResult := lastResult s; tt := tt s; book := book s; hist := hist s; outFree := outFree s; outHolder := outHolder s; outBuf := outBuf s; outErr := outErr s; outLines := outLines s; clock := clock s; srch := srch s; senders := senders s; timers := timers s; ntimers := ntimers s; starts := v; results := results s; trace := trace s |}.
 Definition set_results (v : list (nat * reason)) (s : state) : state :=
-  {| cfgTT := cfgTT s; cfgBook := cfgBook s; cfgBookOk := cfgBookOk s; calls := calls s; done := done s; cpcv := cpcv s; cidx := cidx s; runFree := runFree s; initFree := initFree s; panicked := panicked s; toks := toks s; stopPtr := stopPtr s; timeLimit := timeLimit s; extraTime := extraTime s; limitsVar := limitsVar s; curPos := curPos s; hasResult := hasResult s; lastResult := lastResult s; tt := tt s; book := book s; hist := hist s; outFree := outFree s; outBuf := outBuf s; outErr := outErr s; outLines := outLines s; clock := clock s; srch := srch s; senders := senders s; timers := timers s; ntimers := ntimers s; starts := starts s; results := v; trace := trace s |}.
+  {| cfgTT := cfgTT s; cfgBook := cfgBook s; cfgBookOk := cfgBookOk s; calls := calls s; done := done s; cpcv := cpcv s; cidx := cidx s; runFree := runFree s; initFree := initFree s; panicked := panicked s; toks := toks s; stopPtr := stopPtr s; timeLimit := timeLimit s; extraTime := extraTime s; limitsVar := limitsVar s; curPos := curPos s; hasResult := hasResult s; lastResult := lastResult s; tt := tt s; book := book s; hist := hist s; outFree := outFree s; outHolder := outHolder s; outBuf := outBuf s; outErr := outErr s; outLines := outLines s; clock := clock s; srch := srch s; senders := senders s; timers := timers s; ntimers := ntimers s; starts := starts s; results := v; trace := trace s |}.
 Definition set_trace (v : list event) (s : state) : state :=
-  {| cfgTT := cfgTT s; cfgBook := cfgBook s; cfgBookOk := cfgBookOk s; calls := calls s; done := done s; cpcv := cpcv s; cidx := cidx s; runFree := runFree s; initFree := initFree s; panicked := panicked s; toks := toks s; stopPtr := stopPtr s; timeLimit := timeLimit s; extraTime := extraTime s; limitsVar := limitsVar s; curPos := curPos s; hasResult := hasResult s; lastResult := lastResult s; tt := tt s; book := book s; hist := hist s; outFree := outFree s; outBuf := outBuf s; outErr := outErr s; outLines := outLines s; clock := clock s; srch := srch s; senders := senders s; timers := timers s; ntimers := ntimers s; starts := starts s; results := results s; trace := v |}.
+  {| cfgTT := cfgTT s; cfgBook := cfgBook s; cfgBookOk := cfgBookOk s; calls := calls s; done := done s; cpcv := cpcv s; cidx := cidx s; runFree := runFree s; initFree := initFree s; panicked := panicked s; toks := toks s; stopPtr := stopPtr s; timeLimit := timeLimit s; extraTime := extraTime s; limitsVar := limitsVar s; curPos := curPos s; hasResult := hasResult s; lastResult := lastResult s; tt := tt s; book := book s; hist := hist s; outFree := outFree s; outHolder := outHolder s; outBuf := outBuf s; outErr := outErr s; outLines := outLines s; clock := clock s; srch := srch s; senders := senders s; timers := timers s; ntimers := ntimers s; starts := starts s; results := results s; trace := v |}.
 
 (** ** Helpers *)
 
@@ -369,7 +376,8 @@ Definition rel_init (s : state) : state :=
 
 (* sync.Mutex.Unlock of an unlocked mutex is a fatal error *)
 Definition rel_out (s : state) : state :=
-  if outFree s then s |> set_panicked true else s |> set_outFree true.
+  if outFree s then s |> set_panicked true else s |> set_outFree true |> set_outHolder None.
+Definition acq_out (who : thr) (s : state) : state := s |> set_outFree false |> set_outHolder (Some who).
 
 Definition new_timer (p : nat) (cr : creator) (s : state) : state :=
   s |> set_timers (mkT (ntimers s) p cr TmStart 0 0 0 :: timers s) |> set_ntimers (S (ntimers s)).
@@ -495,7 +503,7 @@ Definition cstep (s : state) : option state :=
     | CRzTT =>                                       (* 261-262 *)
         Some (s |> set_cpcv (if tt s then CSend0 LInfo (Some (EResizeHash false)) else CRet (Some (EResizeHash false))))
     | CSend0 ln ret =>                               (* uci.go:655 Lock *)
-        if outFree s then Some (s |> set_outFree false |> set_cpcv (CSend1 ln ret)) else None
+        if outFree s then Some (acq_out ThCtl s |> set_cpcv (CSend1 ln ret)) else None
     | CSend1 ln ret =>                               (* uci.go:658; the line is handed over here *)
         Some (out_stage1 ln s |> (match ln with LReady => emit EReadyOk | _ => fun x => x end) |> set_cpcv (CSend2 ret))
     | CSend2 ret =>                                  (* uci.go:659 *)
@@ -581,7 +589,7 @@ Definition sstep (s : state) (th : sthread) (c : choice) : option state :=
       end
   | SNodeTT, Go => goto_s SNodeHist th s                                         (* alphabeta.go:233 *)
   | SNodeHist, Go => goto_s SLoop th s                                           (* alphabeta.go:688 *)
-  | SInfo0, Go => if outFree s then goto_s SInfo1 th (s |> set_outFree false) else None   (* uci.go:655 Lock *)
+  | SInfo0, Go => if outFree s then goto_s SInfo1 th (acq_out (ThSearch (sid th)) s) else None   (* uci.go:655 Lock *)
   | SInfo1, Go => goto_s SInfo2 th (out_stage1 LInfo s)                          (* uci.go:658 *)
   | SInfo2, Go => let (s', k) := out_stage2 s in goto_s (SInfo3 k) th s'         (* uci.go:659 *)
   | SInfo3 k, Go => goto_s SInfo4 th (out_stage3 k s)
@@ -615,7 +623,7 @@ Definition upd_n (th : sthread) (s : state) : state := s |> set_senders (put_s t
 
 Definition nstep (s : state) (th : sthread) : option state :=
   match spcv th with
-  | SRes0 => if outFree s then Some (upd_n (set_spc SRes1 th) (s |> set_outFree false)) else None    (* uci.go:655 Lock *)
+  | SRes0 => if outFree s then Some (upd_n (set_spc SRes1 th) (acq_out (ThSearch (sid th)) s)) else None    (* uci.go:655 Lock *)
   | SRes1 =>                                                                     (* uci.go:658; the line is handed over here *)
       Some (upd_n (set_spc SRes2 th) (out_stage1 (LBest (sid th)) s
                                       |> set_results ((sid th, result_reason th) :: results s)
@@ -693,7 +701,7 @@ Definition init (ctt cbook cbookok : bool) (cs : list call) : state :=
      limitsVar := None; curPos := 0;
      hasResult := false; lastResult := 0;
      tt := false; book := false; hist := 0;
-     outFree := true; outBuf := []; outErr := false; outLines := [];
+     outFree := true; outHolder := None; outBuf := []; outErr := false; outLines := [];
      clock := 0;
      srch := []; senders := []; timers := []; ntimers := 0;
      starts := []; results := []; trace := [] |}.
@@ -780,7 +788,6 @@ Definition access_of (s : state) (t : tid) : option access :=
   end.
 
 (* goroutine identity: the scheduler's choice is not part of it *)
-Inductive thr := ThCtl | ThSearch (n : nat) | ThTimer (k : nat) | ThClock.
 Definition thread_of (t : tid) : thr :=
   match t with TCtl => ThCtl | TSearch n _ => ThSearch n | TTimer k => ThTimer k | TTick => ThClock end.
 
@@ -923,7 +930,8 @@ Fixpoint succs (s : state) (expect : option event) (ts : list tid) (silent hit :
 
 (* partial-order reduction used by the checker only: a step is "local" when it emits no event and commutes with
    every step of every other goroutine (plain accesses to variables nobody else can write at that point, steps
-   inside the sendLock critical section, dispatch); local steps are executed eagerly *)
+   inside the sendLock critical section, steps of a timer whose stop token is already true); local steps are
+   executed eagerly *)
 Definition c_local (p : cpc) : bool :=
   match p with
   | CStPos | CStLim | CStTok | CSpPtr | CNgTT | CNgHist | CPhLim | CPhPtr | CInBook | CInBookW | CInTT
@@ -939,13 +947,19 @@ Definition s_local (p : spc) : bool :=
   | SWaitPtr | SLastRes | SHasRes1 | SEndPtr | SRes2 | SRes3 _ => true
   | _ => false
   end.
+Definition t_dead (s : state) (th : tthread) : bool :=     (* its token is already true: it will just exit *)
+  match tpcv th with
+  | TmStore => false
+  | _ => match tok_get (ttok th) (toks s) with Some _ => true | None => false end
+  end.
 Definition local_tid (s : state) : option tid :=
-  match calls s with
-  | _ :: _ => if c_local (cpcv s) then Some TCtl else
-              match find (fun th => s_local (spcv th)) (srch s ++ senders s) with
-              | Some th => Some (TSearch (sid th) Go) | None => None end
-  | [] => match find (fun th => s_local (spcv th)) (srch s ++ senders s) with
-          | Some th => Some (TSearch (sid th) Go) | None => None end
+  if match calls s with _ :: _ => c_local (cpcv s) | [] => false end then Some TCtl else
+  match find (fun th => s_local (spcv th)) (srch s ++ senders s) with
+  | Some th => Some (TSearch (sid th) Go)
+  | None => match find (t_dead s) (timers s) with
+            | Some th => Some (TTimer (tmid th))
+            | None => None
+            end
   end.
 Fixpoint norm (fuel : nat) (s : state) : state :=
   match fuel with
